@@ -64,7 +64,11 @@ func c18PushBehaviour(c *core.Ctx, lfsBin string, b *behaviour, idx int) (*apiRu
 		var args []string
 		switch s.str("mode") {
 		case "git-push":
-			args = append([]string{"push", "origin"}, refs...)
+			args = []string{"push", "origin"}
+			for _, d := range toStrings(s["deletes"]) {
+				args = append(args, ":"+d)
+			}
+			args = append(args, refs...)
 		case "lfs-push":
 			args = append([]string{"lfs", "push", "origin"}, refs...)
 		default:
